@@ -13,6 +13,7 @@ PARTIAL with respect to schedules: the theorem covers every interleaving of the 
 system; the implementation is observed on the schedules the harness provokes.
 -/
 import GoNfsd.Model.Locks
+import GoNfsd.Lemmas.Serial
 
 namespace GoNfsd.Props.C03
 open GoNfsd.Model.Locks
@@ -103,5 +104,50 @@ theorem insertsChecked_sound (evs : List NameEv) (looked : List Nat) (h : insert
         rcases ih looked h.2 pre' post k he2 with hm | hm
         · exact Or.inl hm
         · exact Or.inr (by simp [hm])
+
+/-! ### why the replay in commit order works: strict two-phase locking serialises -/
+
+section serial
+open GoNfsd.Model.Serial
+
+/-- COMMIT-ORDER REPLAY.  Any interleaving of any number of transactions that lock objects, read
+    and update them in place under the lock and release everything at commit — each lock granted
+    only when free, each access made only under the lock — ends, once everything is committed,
+    with every object in exactly the state it has after running the transactions ONE AFTER THE
+    OTHER in the order of their commits (each with its complete list of actions), and every
+    transaction has read exactly the values it reads in that serial execution.  Hence replaying a
+    concurrent history of the server in commit order on the sequential reference model must
+    reproduce every reply — which is what the C03 check does with the recorded histories. -/
+theorem commit_order_replay (v : Nat → Val) (es : List GoNfsd.Model.Serial.Ev) (ha : AllowedAll (init v) es)
+    (hq : Quiescent (GoNfsd.Model.Serial.run (init v) es)) :
+    (∀ o, (GoNfsd.Model.Serial.run (init v) es).A o = (serialExec v (commitLog (init v) es)).1 o) ∧
+    (∀ t, (GoNfsd.Model.Serial.run (init v) es).reads.filter (fun r => r.1 == t) =
+          (serialExec v (commitLog (init v) es)).2.filter (fun r => r.1 == t)) := by
+  have hinv := run_inv (init v) es (init_inv v) ha
+  obtain ⟨hc, hs⟩ := run_serial_view es (init v)
+  refine ⟨?_, ?_⟩
+  · intro o
+    rw [hinv.free_eq o (hq.1 o), hc]; rfl
+  · intro t
+    have := hinv.reads_eq t
+    rw [hq.2 t] at this
+    simp only [runSerial, List.append_nil] at this
+    rw [this, hs]
+    simp [init]
+
+/-- Non-vacuity: two transactions interleaved on two objects (each increments one and copies it
+    onto the other is not expressible without reads — here: +1 on object 0, doubling of object 1,
+    interleaved) are allowed and end quiescent. -/
+example :
+    let es : List GoNfsd.Model.Serial.Ev := [.acq 1 0, .acq 2 1, .act 1 ⟨0, (· + 1)⟩, .act 2 ⟨1, (· * 2)⟩, .commit 2, .acq 1 1, .act 1 ⟨1, (· + 10)⟩, .commit 1]
+    AllowedAll (init fun _ => 5) es ∧ Quiescent (GoNfsd.Model.Serial.run (init fun _ => 5) es) ∧
+    (GoNfsd.Model.Serial.run (init fun _ => 5) es).A 1 = 20 := by
+  intro es
+  refine ⟨⟨?_, ?_, ?_, ?_, trivial, ?_, ?_, trivial, trivial⟩, ⟨?_, ?_⟩, ?_⟩
+  all_goals simp [es, Allowed, GoNfsd.Model.Serial.run, step, init, runSerial]
+  · intro o; by_cases h0 : o = 0 <;> by_cases h1 : o = 1 <;> simp [h0, h1]
+  · intro t; by_cases h1 : t = 1 <;> by_cases h2 : t = 2 <;> simp [h1, h2]
+
+end serial
 
 end GoNfsd.Props.C03
